@@ -9,7 +9,7 @@ package smf
 // about the stream only, never about the schedule of Read results (C09).
 
 //@ macro strm(x) = x != nil && 0 <= x.spos && x.spos <= x.sn
-//@ macro trkWf(r) = forall i int :: 0 <= i && i < len(r.SMF.Tracks) ==> wfTrack(r.SMF.Tracks[i])
+//@ macro trkWf(r) = forall i int, j int :: (0 <= i && i < len(r.SMF.Tracks) && 0 <= j && j < len(r.SMF.Tracks[i]) - 1) ==> !isEOT(r.SMF.Tracks[i][j].Message)
 
 // ---------------------------------------------------------------- chunk header
 //@ func (*chunk).Type
